@@ -16,7 +16,7 @@ import (
 
 func init() { register(&Check{ID: "C08", Run: runC08}) }
 
-const c08Bodies = 9
+const c08Bodies = 10
 
 func c08Body(b int, e string) string {
 	switch b {
@@ -34,6 +34,8 @@ func c08Body(b int, e string) string {
 		return "applymovement(1, moves(m_" + e + " u))\n"
 	case 6:
 		return "poryswitch(PV) {\nSEL: c_" + e + "\n_: d_" + e + "\n}\n"
+	case 9: // several inline data of each kind in one inline script
+		return "applymovement(1, moves(m_" + e + " u))\nmsgbox(\"one " + e + "\")\napplymovement(2, moves(n_" + e + " d))\nmsgbox(\"two " + e + "\")\n"
 	case 8: // arguments with operator characters the assembler understands (incl. the printf verb character)
 		return "setvar(V_" + e + ", V_" + e + " % 4)\nc_" + e + "(100%, %d, %s%%)\n"
 	default:
@@ -229,7 +231,7 @@ func runC08(tier string) int {
 	r.Assume("an inline body must be emitted exactly like 'script(local) <name> { body }' (differential; C01 decides the behaviour of script statements)",
 		"inline names are <map>_<TYPE> and <map>_<TYPE>_<index>; texts inside bodies are distinct per entry so that no label is shared across entries")
 	return r.Finish(r.Get("evaluations"), r.Get("nontrivial"),
-		"every mapscripts statement with <= N entries over {plain, inline with 9 body kinds incl. arguments that contain '%', table with <= T entries over plain / inline entries with simple and multi-token var/value (the multi-token ones mention constants)} x scope {none, global, local} x optimize on/off, incl. the empty statement and empty tables; plus tables with K entries and headers with K entries for every K up to the bound in the coverage; each statement also compiled with every dispensable white space removed; header, table and inline-script blocks are compared with the generator's expectation and with the standalone compilation of the same body; non-trivial = the statement has a table and an inline entry")
+		"every mapscripts statement with <= N entries over {plain, inline with 10 body kinds incl. several moves() lists and texts in one inline script, arguments that contain '%', table with <= T entries over plain / inline entries with simple and multi-token var/value (the multi-token ones mention constants)} x scope {none, global, local} x optimize on/off, incl. the empty statement and empty tables; plus tables with K entries and headers with K entries for every K up to the bound in the coverage; each statement also compiled with every dispensable white space removed; header, table and inline-script blocks are compared with the generator's expectation and with the standalone compilation of the same body; non-trivial = the statement has a table and an inline entry")
 }
 
 func c08Eval(r *harness.Run, entries []c08Entry, scope string, opt bool, sw map[string]string) {
